@@ -128,7 +128,12 @@ static void
 mc_tick(int sig)
 {
     (void)sig;
-    if (mc.tick_idx == mc.cur) {
+    /* Progress = the case counter moved.  It also moves while cases are only
+     * numbered (other shards' cases, the prefix before --skip / --only), so a
+     * long enumeration up to a late case is not mistaken for a hang; inside a
+     * case it stands still. */
+    const int64_t now = mc.idx;
+    if (mc.tick_idx == now) {
         if (++mc.tick_same >= MC_HANG_TICKS) {
             static const char msg[] = "MC-HANG\n";
             ssize_t r = write(2, msg, sizeof(msg) - 1);
@@ -136,9 +141,18 @@ mc_tick(int sig)
             _exit(88);
         }
     } else {
-        mc.tick_idx = mc.cur;
+        mc.tick_idx = now;
         mc.tick_same = 0;
     }
+}
+
+/* A case that legitimately needs more than MC_HANG_TICKS seconds (one call over
+ * gigabytes) states its own budget right after mc_case(). */
+static inline void
+mc_budget(int seconds)
+{
+    mc.tick_idx = mc.idx; /* this order: see mc_tick() */
+    mc.tick_same = MC_HANG_TICKS - seconds;
 }
 
 /* ---- set-up --------------------------------------------------------------- */
